@@ -467,7 +467,10 @@ def calculate_1d_frequencies(
             raise ValueError("Bins must be rising.")
 
     # Prepare 1D numpy array of data
-    data_array = data
+    data_array = np.asarray(data)
+    if data_array.dtype.kind in "iu" or (data_array.dtype.kind == "f" and data_array.dtype.itemsize < 8):
+        # The sums for the statistics (squares!) are not to be formed in a compact element type
+        data_array = data_array.astype(np.float64)
     if data_array.ndim > 1:
         # TODO: Perhaps disallow this?
         data_array = data_array.flatten()
